@@ -3,6 +3,7 @@ import QrlewModel.Model.Intervals
 import QrlewModel.Model.Hierarchy
 import QrlewModel.Model.Rules
 import QrlewModel.Generated.Rules
+import QrlewModel.Model.DpEvent
 /-!
 JSON-lines driver over the executable model.  One input line = one harness line
 (`{"stream":..,"case":..,..}`); one output line = `{"model": <canonical output>}`.
@@ -147,6 +148,90 @@ def runRules (aux : Json) : Option Json := do
     ("dp_ok", if hard then Json.bool cdp.isSome else Json.null),
     ("pup_ok", Json.bool cpup.isSome)])
 
+/-! ### DpEvent / budget -/
+
+partial def evOfJson? (j : Json) : Option (DpEvent Int) := do
+  let tag ← (j.getArrVal? 0).toOption >>= fun t => t.getStr?.toOption
+  match tag with
+  | "noop" => pure .noOp
+  | "gauss" => do pure (.gaussian (← (j.getArrVal? 1).toOption >>= jInt?))
+  | "ed" => do pure (.epsilonDelta (← (j.getArrVal? 1).toOption >>= jInt?) (← (j.getArrVal? 2).toOption >>= jInt?))
+  | "comp" => do
+    let arr ← (j.getArrVal? 1).toOption >>= fun a => a.getArr?.toOption
+    pure (.composed (← arr.toList.mapM evOfJson?))
+  | _ => none
+
+partial def evToJson : DpEvent Int → Json
+  | .noOp => Json.arr #[Json.str "noop"]
+  | .gaussian m => Json.arr #[Json.str "gauss", Json.num (JsonNumber.fromInt m)]
+  | .epsilonDelta e d => Json.arr #[Json.str "ed", Json.num (JsonNumber.fromInt e), Json.num (JsonNumber.fromInt d)]
+  | .composed es => Json.arr #[Json.str "comp", Json.arr (es.map evToJson).toArray]
+
+def isZeroInt (x : Int) : Bool := x == 0
+
+def runDpEvent (c : Json) : Option Json := do
+  let arr ← (c.getObjVal? "events").toOption >>= fun a => a.getArr?.toOption
+  let evs ← arr.toList.mapM evOfJson?
+  let collected := DpEvent.collect isZeroInt evs
+  let noop := evs.map (DpEvent.isNoOp isZeroInt)
+  let pair := match evs with
+    | a :: b :: _ => evToJson (DpEvent.compose isZeroInt a b)
+    | _ => Json.null
+  pure (Json.mkObj [("collected", evToJson collected), ("noop", Json.arr (noop.map Json.bool).toArray), ("pair", pair)])
+
+def floatOps : NumOps Float where
+  ofNat := fun n => n.toFloat
+  add := (· + ·)
+  sub := (· - ·)
+  mul := (· * ·)
+  div := (· / ·)
+  sqrt := Float.sqrt
+  ln := Float.log
+  max := fun a b => if a < b then b else a
+  c125 := 1.25
+
+def jFloat? (j : Json) : Option Float := match j with
+  | Json.num n => some n.toFloat
+  | _ => none
+
+def closeTo (a b : Float) : Bool :=
+  let d := (a - b).abs
+  d ≤ 1e-9 * (if a.abs < b.abs then b.abs else a.abs) || d ≤ 1e-300
+
+def runDpQuery (aux : Json) : Option Json := do
+  let eps ← (aux.getObjVal? "eps").toOption >>= jFloat?
+  let delta ← (aux.getObjVal? "delta").toOption >>= jFloat?
+  let share ← (aux.getObjVal? "share").toOption >>= jFloat?
+  let tauUsed ← (aux.getObjVal? "tau_used").toOption >>= (fun b => b.getBool?.toOption)
+  let groupsJ ← (aux.getObjVal? "groups").toOption >>= (fun a => a.getArr?.toOption)
+  let groups ← groupsJ.toList.mapM fun g => do
+    let sites ← g.getArr?.toOption
+    sites.toList.mapM fun s => do
+      let sg ← (s.getArrVal? 0).toOption >>= jFloat?
+      let c ← (s.getArrVal? 1).toOption >>= jFloat?
+      pure (sg, c)
+  let gauss ← (aux.getObjVal? "gauss").toOption >>= (fun a => a.getArr?.toOption) >>= (fun a => a.toList.mapM jFloat?)
+  let edsJ ← (aux.getObjVal? "eds").toOption >>= (fun a => a.getArr?.toOption)
+  let eds ← edsJ.toList.mapM fun e => do
+    let a ← (e.getArrVal? 0).toOption >>= jFloat?
+    let b ← (e.getArrVal? 1).toOption >>= jFloat?
+    pure (a, b)
+  let o := floatOps
+  let aggShare := Budget.aggShare o tauUsed share
+  let g := groups.length.toFloat
+  let epsG := eps * aggShare / (if g < 1 then 1 else g)
+  let deltaG := delta * aggShare / (if g < 1 then 1 else g)
+  -- σ of every sum: gaussian_mechanisms(ε_G, δ_G, bounds)
+  let sigmaOk := groups.all fun sites =>
+    let want := Budget.sigmas o epsG deltaG (sites.map (·.2))
+    sites.all (fun sc => sc.2 ≥ 0) && (sites.zip want).all fun (sc, w) => closeTo sc.1 w
+  -- event: one Gaussian(recorded multiplier of the undivided group budget) per sum with σ > 0
+  let nLive := (groups.map fun sites => (sites.filter fun sc => sc.1 > 0).length).foldl (· + ·) 0
+  let m := Budget.recordedMultiplier o epsG deltaG
+  let eventOk := gauss.length == nLive && gauss.all (closeTo · m)
+  let tauOk := if tauUsed then (match eds with | [(e, d)] => closeTo e (eps * share) && closeTo d (delta * share) | _ => false) else eds.isEmpty
+  pure (Json.mkObj [("sigma_ok", Json.bool sigmaOk), ("event_ok", Json.bool eventOk), ("tau_ok", Json.bool tauOk)])
+
 def handle (line : String) : Json :=
   match Json.parse line with
   | .error e => Json.mkObj [("model", Json.null), ("error", Json.str s!"parse: {e}")]
@@ -156,6 +241,8 @@ def handle (line : String) : Json :=
     let r : Option Json := match stream with
       | "intervals" => runIntervals c
       | "hier" => runHier c
+      | "dpevent" => runDpEvent c
+      | "dpquery" => runDpQuery ((j.getObjVal? "aux").toOption.getD Json.null)
       | "rules" => runRules ((j.getObjVal? "aux").toOption.getD Json.null)
       | _ => none
     match r with
